@@ -47,7 +47,9 @@ RULE = ("(1) guards.run: histories of requests against the real kvarn::handle_ca
         "file. (2) guards.wire: histories over loopback HTTP/1.1 connections served by kvarn::handle_connection with the chosen peer address "
         "(what SendKind::send wrote: Range slices of guarded bodies, HEAD, 406, every header); the harness itself reports marker leaks, body "
         "bytes after HEAD and any difference (status, every header but date, body) between a refused file and a path that does not exist; "
-        "the specified result is the empty list. "
+        "the specified result is the empty list. (3) guards.push: a public HTML page that links every fixture file, fetched over TLS + HTTP/2 by "
+        "listed and not listed clients (IPv4, IPv6, loopback); every response kvarn_extensions::push PUSHES (its internal handle_cache request) "
+        "is judged by the marker oracle like an answer; at least two pushed responses per fetch or the case counts as not executed. "
         "distinct_nontrivial = distinct (scenario, outcome) pairs in which a listed address received guarded content and a later request was refused")
 ASSUMPTIONS = [
     "what the server holds for a path (file-cache entry, else disk) does not change during a history, and there are no links that give a "
@@ -63,8 +65,8 @@ ASSUMPTIONS = [
     "Prepare extensions other than the CORS denial route neither",
     "content negotiation is abstract in the theorems (any refusal function); in the model run nothing is refused: Accept-Encoding values that "
     "refuse every coding are sent in the wire histories only; bodies are compared after decoding content-encoding with standard decoders",
-    "sequential histories; moka as a finite map (C03's assumptions); HTTP/2 push (kvarn_extensions::push issues an internal handle_cache with "
-    "the client's address) is not executed by the harness",
+    "sequential histories; moka as a finite map (C03's assumptions); HTTP/2 push is not modelled: the pushed responses are judged by the "
+    "marker oracle only (guards.push)",
     "a file named exactly '.private' (empty stem) is not '*.private' for Path::extension and is served; an allow-ips argument lists an "
     "address only in the notations IpAddr::from_str accepts (no /32, no brackets, no zone); an IPv4 address equals no IPv6 address, not "
     "even its mapped form (::ffff:a.b.c.d clients of a dual-stack listener are refused by an IPv4 list: fail closed)",
@@ -93,7 +95,7 @@ LEVEL_TEXT = ("Coq theorem guarded_content_confined over the model of the repair
               "same file and the same extension lookup. Refuted for the code before the three fix: commits (private_spelling_v0_refuted, "
               "cache_directive_v0_refuted, error_page_line_v0_refuted; each reproduced on the real code first) and for the two known classes on the "
               "faithful model (tmpl_names_guarded_file_refuted, allow_404_template_refuted). Tied to the repaired /repo by the differential run "
-              "with three oracles that do not depend on the model (marker, refused-vs-absent twins, wire-level judge).")
+              "with oracles that do not depend on the model (marker, refused-vs-absent twins, wire-level judge, pushed responses).")
 LEVEL_NOTE = ("Trusted: Coq kernel; extraction (sample re-checked in-kernel); hand transcription validated by the differential run; "
               "fs / error pages / template engine / negotiation / vary / Prime extensions as section variables with the stated hypotheses; Range, "
               "HEAD and the rest of SendKind::send are not modelled (range_of_clean_body_clean + the wire-level oracle). No axioms. All 21 "
@@ -508,6 +510,31 @@ def wire_cases(rng, n):
     return cases
 
 
+def push_cases(rng, n):
+    """HTTP/2 push (kvarn_extensions::push, mounted by mount_all): a public page links guarded files; the pushed responses are judged"""
+    cases = []
+    for i in range(n):
+        files, targets, plain_err = fixture(rng, rich=False, err=rng.choice(ERR404[:4]))
+        files.append(xl(xb(b"public/lo.txt"), xb(content(b"!> allow-ips 127.0.0.1 ::1", b"lo.txt", rng, True))))
+        files.append(xl(xb(b"public/pub.js"), xb(content(None, b"pub.js", rng, False))))
+        links = [t[0] for t in targets] + [b"/lo.txt", b"/pub.js"]
+        rng.shuffle(links)
+        page = b"<!DOCTYPE html><html><head>" + b"".join(
+            rng.choice([b'<script src="%s"></script>', b'<link rel="stylesheet" href="%s">', b"<script async src='%s'></script>"]) % (
+                l if rng.random() < 0.6 else encode(l, rng.choice(dot_masks(l)), rng)) for l in links) + b"</head><body>PUBLIC:index.html:000000;</body></html>"
+        files.append(xl(xb(b"public/index.html"), xb(page)))
+        guards = {t[2]: _py_guard(t[2], t[4] + b"\n" if t[4] else b"") for t in targets}
+        guards[b"lo.txt"] = _py_guard(b"lo.txt", b"!> allow-ips 127.0.0.1 ::1\n")
+        ops = []
+        for a in [2, 1, V4("127.0.0.1"), V6("::1"), V6("::ffff:10.0.0.1"), V6("::ffff:127.0.0.1"), rng.choice(STRANGERS), V4("10.0.0.1")]:
+            ip = py_ip(xaddr(a))
+            allowed = [rel for rel, (hidden, allow) in guards.items() if not hidden and allow is not None and ip in allow]
+            ops.append(xl(xn(0), xaddr(a), xb(b"/index.html"), xlist([xb(r) for r in allowed]), xn(2)))
+        cases.append(Case("guards.push", pipe.scenario(pipe.cfg(cache=rng.random() < 0.8, fcache=rng.random() < 0.7, files=files, default_ext=False), ops),
+                          "guards.wire", {"kind": "push"}))
+    return cases
+
+
 def expiry_cases(rng, n):
     """entries that expire between requests (cache client:1s => max-age=1 => server lifetime 1 s); margins of 1.5 s"""
     cases = []
@@ -609,6 +636,7 @@ def generate(rng, tier):
         ops = history(rng, sp, extra_addrs=2, twins=twins)
         cases += mk(rng, files, ops, "malformed-line", both=False, twins=[(a, b, "a" if k == "a" else "h") for a, b, k in twins])
     cases += wire_cases(rng, 36 if tier == "quick" else 500)
+    cases += push_cases(rng, 6 if tier == "quick" else 60)
     cases += expiry_cases(rng, 2 if tier == "quick" else 8)
     return cases
 
@@ -658,7 +686,7 @@ def _markers(reply):
 
 def spec_ok(c, impl, spec):
     """Gallina spec: a marker of file F in reply i => spec says request i is permitted and its decoded path is F."""
-    if c.comp == "guards.wire":
+    if c.comp in ("guards.wire", "guards.push"):
         return impl == spec
     try:
         a, s = xparse(impl)[1], xparse(spec)[1]
@@ -707,7 +735,7 @@ def _canon_reply_headers(text):
 
 
 def compare(c, i, m):
-    if c.comp == "guards.wire" or i == m:
+    if c.comp in ("guards.wire", "guards.push") or i == m:
         return i == m
     return _canon_reply_headers(i) == _canon_reply_headers(m)
 
@@ -753,7 +781,7 @@ def extra_oracle(c, impl):
     IPv4 address equals no IPv6 address) is on every list; (2) the reply to a refused request equals the reply to the same request
     for a path that does not exist: status, decoded body, identity body (and cache-control / last-modified presence where nothing but
     hide / *.private marks the file and the error pages carry no line of their own)"""
-    if c.comp == "guards.wire":
+    if c.comp in ("guards.wire", "guards.push"):
         return None if impl == "(L)" else "on the wire: " + kv.pretty(xparse(impl), 700)
     try:
         files, ops, twins = _scenario(c)
@@ -817,7 +845,7 @@ def classify(c, impl):
 
 
 def signature(c, m):
-    if c.comp == "guards.wire":
+    if c.comp in ("guards.wire", "guards.push"):
         return None
     try:
         rs = xparse(m)[1]
@@ -855,7 +883,7 @@ def extra_coverage(cases, impl, model, spec):
         i = impl.get(c.id)
         if i is None:
             continue
-        if c.comp == "guards.wire":
+        if c.comp in ("guards.wire", "guards.push"):
             wire += 1
             wire_req += sum(1 for o in c.x[1][1][1] if o[1][0][1] == 0)
             continue
